@@ -26,6 +26,7 @@ func init() {
 			{"C10/exit", "no panic/os.Exit/log.Fatal on request-reachable paths except justified entries", c10Exit},
 			{"C10/reflect", "reflect partial methods are dominated by a Kind test of the same value", c10Reflect},
 			{"C10/contain", "gRPC methods and go targets reach third-party parsers of client bytes only behind a directly recovering defer", c10Contain},
+			{"C10/binary-width", "every direct byte-order read or write (binary.LittleEndian.UintN / PutUintN) on a request path has an argument proven long enough", c10BinaryWidth},
 			{"C10/relay-conn", "the relay goroutine is started only with a connection that was dialled successfully", c10RelayConn},
 			{"C10/hijack-nil", "the packet loop starts only with both transports set", c10HijackNil},
 		},
@@ -332,8 +333,43 @@ func describeLen(v ssa.Value) string {
 	return "n"
 }
 
+// boundedTerm: a constant, the length of an existing value, a count returned by Read, a value of
+// a narrow unsigned type, or a sum of such terms.
+func boundedTerm(v ssa.Value, depth int) bool {
+	v = strip(v)
+	if _, ok := constInt(v); ok {
+		return true
+	}
+	switch x := v.(type) {
+	case *ssa.Call:
+		if b, ok := x.Call.Value.(*ssa.Builtin); ok && (b.Name() == "len" || b.Name() == "cap") {
+			return true
+		}
+	case *ssa.Extract:
+		if call, ok := x.Tuple.(*ssa.Call); ok && x.Index == 0 && call.Call.IsInvoke() && call.Call.Method.Name() == "Read" {
+			return true
+		}
+	case *ssa.BinOp:
+		if x.Op == token.ADD && depth < 3 {
+			return boundedTerm(x.X, depth+1) && boundedTerm(x.Y, depth+1)
+		}
+	case *ssa.Convert:
+		if bt, ok := x.X.Type().Underlying().(*types.Basic); ok {
+			switch bt.Kind() {
+			case types.Uint8, types.Uint16:
+				return true
+			}
+		}
+		return boundedTerm(x.X, depth+1)
+	}
+	return false
+}
+
 func boundedLen(fn *ssa.Function, ms *ssa.MakeSlice) (bool, string) {
 	l := ms.Len
+	if bo, ok := strip(l).(*ssa.BinOp); ok && bo.Op == token.ADD && boundedTerm(bo, 0) {
+		return true, "a constant plus the length of an existing value (or a count bounded by a buffer)"
+	}
 	// narrow integer converted up: at most 65535
 	for _, o := range origins(l) {
 		switch o.Kind {
@@ -767,14 +803,7 @@ func c10RelayConn(c *Ctx) {
 		if !c.Reachable()[fn] {
 			continue
 		}
-		var dials []*ssa.Call
-		for _, ci := range callsIn(fn) {
-			if strings.HasPrefix(calleeName(ci), "net.Dial") {
-				if call, ok := ci.(*ssa.Call); ok {
-					dials = append(dials, call)
-				}
-			}
-		}
+		dials := c.dialLikeIn(fn)
 		eachInstr(fn, func(in ssa.Instruction) {
 			g, ok := in.(*ssa.Go)
 			if !ok {
